@@ -118,7 +118,7 @@ def extra(ctx):
             f = Failure("diverge", [line, "trace " + ev], ["(recorded from the implementation)"], [m],
                         clause="the hand-over model does not admit this trace of the implementation: " + m)
             f.name = "trace inclusion K(C13): lean/Driver/C13.lean acceptTrace"
-            f.has_input = True
+            f.has_input = False   # result oracles passed for this interleaving: correspondence broken, property not refuted
             fails.append(f)
     k = len(traces)
     for line in scen:
@@ -134,6 +134,7 @@ def extra(ctx):
     stats["schedules_enumerated"] = nsched
     stats["distinct_traces_accepted_by_model"] = len(traces) - len([f for f in fails if "trace inclusion" in f.name])
     stats["scheduler_scenarios"] = len(scen)
+    fails.sort(key=lambda f: not f.has_input)
     return fails[:4]
 
 
